@@ -45,7 +45,7 @@ def current_cond(cpu, kind, word, row):
     raise RefUnpredictable('ITSTATE<3:0> == 0 with ITSTATE<7:4> != 0')
 
 
-def step(snap, cfg, forced=None, deviation=None):
+def step(snap, cfg, forced=None, deviation=None, force_cond=False):
     """Returns (verdict, cpu, info).  verdict: 'ok' | 'unpredictable' | 'not-modelled' | 'optional'.
     forced = (kind, word): trust-fetch mode (the word the real fetch returned)."""
     cpu = RefCPU(snap, cfg)
@@ -80,7 +80,7 @@ def step(snap, cfg, forced=None, deviation=None):
         if fn is None:
             return 'not-modelled', cpu, info
         cond = current_cond(cpu, kind, word, row)
-        info['cond_passed'] = passed = cpu.cond_holds(cond) or row.sem in UNCONDITIONAL
+        info['cond_passed'] = passed = cpu.cond_holds(cond) or row.sem in UNCONDITIONAL or force_cond
         if passed:
             fn(cpu, ops, row)
         if not cpu.pc_written:
